@@ -24,11 +24,39 @@ class TLCError(RuntimeError):
     """Machinery failure (TLC crashed, parse error in a spec ...) -> exit code 2."""
 
 
+def sweep_stale():
+    """Remove scratch directories of earlier runs whose owning process is gone (a killed check cannot clean up; TLC
+    metadirs of large runs are tens of GB)."""
+    tmp = tempfile.gettempdir()
+    for name in os.listdir(tmp):
+        if not name.startswith('pbverif-'):
+            continue
+        d = os.path.join(tmp, name)
+        pidf = os.path.join(d, 'owner.pid')
+        try:
+            if os.path.isdir(d):
+                if os.path.exists(pidf):
+                    with open(pidf) as f:
+                        pid = int(f.read().strip() or 0)
+                    if pid and os.path.exists('/proc/%d' % pid):
+                        continue
+                elif time.time() - os.path.getmtime(d) < 6 * 3600:
+                    continue
+                shutil.rmtree(d, ignore_errors=True)
+            elif time.time() - os.path.getmtime(d) > 3600:
+                os.remove(d)
+        except Exception:
+            pass
+
+
 class Scratch(object):
     """mkdtemp scratch dir with a copy of /verif/spec in it."""
 
     def __init__(self, prefix='pbverif-'):
+        sweep_stale()
         self.dir = tempfile.mkdtemp(prefix=prefix)
+        with open(os.path.join(self.dir, 'owner.pid'), 'w') as f:
+            f.write(str(os.getpid()))
         self.spec = os.path.join(self.dir, 'spec')
         shutil.copytree(SPEC_DIR, self.spec)
 
